@@ -15,6 +15,13 @@ import (
 	"github.com/oneconcern/datamon/pkg/model"
 )
 
+func vB2i(b bool) int {
+	if b {
+		return 1
+	}
+	return 0
+}
+
 func vListOpts() []Option {
 	return nil
 }
@@ -51,7 +58,7 @@ func VerifC07Bundles() {
 	if c == 1 {
 		vCover("page-size-1")
 	}
-	conc := vChoose("concurrency", 2) + 1
+	conc := vChoose("concurrency", 2+vB2i(vThorough())) + 1 // list concurrency 1..2 (thorough 1..3)
 	got, err := ListBundles("r", stores, BatchSize(c), ConcurrentList(conc))
 	vAssert(err == nil, "list-bundles-succeeds")
 	vAssert(len(got) == len(want), "bundles-listed-exactly-once-each")
@@ -89,7 +96,7 @@ func VerifC07Repos() {
 		vCover("prefix-named-repos")
 	}
 	c := vInt("pageSize", 1, 5)
-	conc := vChoose("concurrency", 2) + 1
+	conc := vChoose("concurrency", 2+vB2i(vThorough())) + 1 // list concurrency 1..2 (thorough 1..3)
 	got, err := ListRepos(stores, BatchSize(c), ConcurrentList(conc))
 	vAssert(err == nil, "list-repos-succeeds")
 	vAssert(len(got) == len(want), "repos-listed-exactly-once-each")
@@ -144,7 +151,7 @@ func VerifC07Labels() {
 		vCover("three-labels")
 	}
 	c := vInt("pageSize", 1, 4)
-	conc := vChoose("concurrency", 2) + 1
+	conc := vChoose("concurrency", 2+vB2i(vThorough())) + 1 // list concurrency 1..2 (thorough 1..3)
 	got, err := ListLabels("r", stores, BatchSize(c), ConcurrentList(conc))
 	vAssert(err == nil, "list-labels-succeeds")
 	vAssert(len(got) == n, "labels-listed-exactly-once-each")
@@ -244,7 +251,7 @@ func VerifC07Diamonds() {
 	if c == 1 {
 		vCover("page-size-1")
 	}
-	conc := vChoose("concurrency", 2) + 1
+	conc := vChoose("concurrency", 2+vB2i(vThorough())) + 1 // list concurrency 1..2 (thorough 1..3)
 	got, err := ListDiamonds("r", stores, BatchSize(c), ConcurrentList(conc))
 	vAssert(err == nil, "list-diamonds-succeeds")
 	vAssert(len(got) == len(wantD), "diamonds-listed-exactly-once-each")
